@@ -139,8 +139,8 @@ def diff_class(before, after, cm_before, cm_after):
     at = [kt(x)[1] for x in after]
     if i < len(after) and squeeze(bt[i]) == squeeze(at[i]):
         return "blanks-inside:" + bk               # white space inside the token changed
-    if i + 1 < len(before) and "".join(bt[i:i + 2])[:2] in ("(*", "/*", "//") and not any(c.isalnum() for c in bt[i] + bt[i + 1]):
-        return "glue:" + glue_cause(before[i:i + 2])   # the tokens from here on went into a comment
+    if i + 1 < len(before) and bt[i] and bt[i + 1] and bt[i][-1] + bt[i + 1][0] in ("(*", "/*", "//"):
+        return "glue:operator-chars"                   # a comment was opened: the tokens from here on went into it
     # the same characters, grouped into tokens differently
     for total in range(3, 16):
         for j in range(i + 1, min(i + total, len(before)) + 1):
